@@ -650,6 +650,14 @@ func (c *codegen) convertFuncDecl(file ast.Node, decl *ast.FuncDecl, pkg *types.
 		c.processDefers()
 		emit.Opcodes(c.prog.BinWriter, opcode.RET)
 	}
+	if isInit || isDeploy {
+		// init() and _deploy() bodies are concatenated into a single method: a
+		// `return` inside them jumps here instead of leaving the whole method.
+		if !lastStmtIsReturn(decl.Body) {
+			c.processDefers()
+		}
+		c.setLabel(f.label)
+	}
 
 	if isInit {
 		c.initVariables = append(c.initVariables, f.variables...)
@@ -922,7 +930,11 @@ func (c *codegen) Visit(node ast.Node) ast.Visitor {
 		returnTokenEnd := n.Return + token.Pos(len(token.RETURN.String()))
 		c.saveSequencePoint(n.Return, returnTokenEnd)
 		if len(c.pkgInfoInline) == 0 {
-			emit.Opcodes(c.prog.BinWriter, opcode.RET)
+			if isInitFunc(c.scope.decl) || isDeployFunc(c.scope.decl) {
+				emit.Jmp(c.prog.BinWriter, opcode.JMPL, c.scope.label)
+			} else {
+				emit.Opcodes(c.prog.BinWriter, opcode.RET)
+			}
 		} else {
 			emit.Jmp(c.prog.BinWriter, opcode.JMPL, c.inlineContext[len(c.inlineContext)-1].returnLabel)
 		}
